@@ -1,5 +1,5 @@
 #!/usr/bin/env python3
-"""rfdbg.py <variant-id> : apply one self-test variant to a scratch copy, extract facts to .work/facts-dbg.json
+"""rfdbg.py <variant-id | file.diff> : apply one self-test variant to a scratch copy, extract facts to .work/facts-dbg.json
 (kept for lint/dump.py) and print every failing rule instance with its message."""
 import sys, shutil
 sys.path.insert(0, '/verif/lint')
@@ -7,7 +7,11 @@ import selftest, extract, rules
 from core import Facts
 from engine import Ctx
 from variants import VARIANTS
-v = [v for v in VARIANTS if v['id'] == sys.argv[1]][0]
+import os
+if os.path.isfile(sys.argv[1]):
+    v = {'id': 'file', 'property': None, 'expect': [], 'edits': [], 'patch': os.path.abspath(sys.argv[1]), 'kind': 'refactor'}
+else:
+    v = [v for v in VARIANTS if v['id'] == sys.argv[1]][0]
 base, ok = selftest.make_scratch(v, 77)
 assert ok, 'does not apply'
 p, _ = extract.extract(crate_dir=base, tag='dbg', out='/verif/.work/facts-dbg.json')
